@@ -9,15 +9,19 @@
    Transliteration map
      bytes_ltb                     Python  bytes < bytes
      keep / key / sort_entries     __hashDir: the scandir loop and sorted(..., key=f)
+     norm                          every directory as __hashDir sees it (filtered, sorted)
      walk / walk_entries           __hashEntry / the dirList comprehension of __hashDir
-     parse_entries, read_entry     FileIndex.__readEntry (the file is read lazily there;
-                                   it is not modified during a run, so reading ahead is the same)
+     null_chk                      NullIndex.check
      open_index                    FileIndex.open
+     unpack_entry, read_entry      FileIndex.__readEntry: struct.unpack of the fixed part, then the name
+     parse_entries                 all __readEntry calls of a run (the file is read lazily there; it is
+                                   not modified during a run, so reading ahead is the same)
      advance, rec_matches          FileIndex.__match
-     check                         FileIndex.check + __writeEntry
+     check_full / index_chk        FileIndex.check + __writeEntry (pack_entry, ser_rec = struct.pack + name)
      close_index                   FileIndex.close (content of the replaced cache file)
-     null_chk                      NullIndex.check                                  *)
-From Coq Require Import List NArith Bool Arith.
+   [hash_cached_traced] is the same run with a log of index decisions and SHA-1 inputs;
+   the specification predicates used by Properties.v are at the end. *)
+From Coq Require Import List NArith Bool Arith Sorted.
 Require Import BobV.Gen.ConstsC11.
 Import ListNotations.
 Open Scope N_scope.
@@ -45,7 +49,7 @@ Fixpoint bytes_mem (x : list N) (l : list (list N)) : bool :=
   match l with [] => false | y :: r => bytes_eqb x y || bytes_mem x r end.
 
 (* struct.pack little endian, fixed width (values are in range in the
-   implementation, otherwise struct.error; see wf_* below) *)
+   implementation, otherwise struct.error; see node_wf / node_packable below) *)
 Fixpoint le_enc (w : nat) (n : N) : list N :=
   match w with O => [] | S w' => (n mod 256) :: le_enc w' (n / 256) end.
 
@@ -596,3 +600,19 @@ Definition ex_nul_name : list N := [120] ++ le_enc 4 33188 ++ H_toy [50] ++ [121
 Definition ex_amb1 : entries := [ (ex_nul_name, File (ex_st 1 1 33188 1) [49]) ].
 (* ... hashes like two files x and y *)
 Definition ex_amb2 : entries := [ ([120], File (ex_st 1 1 33188 1) [49]); ([121], File (ex_st 1 2 33188 1) [50]) ].
+
+(* ... and without the bound on st_mode, '=L' cannot tell these two apart
+   (struct.pack raises in the implementation) *)
+Definition ex_mode1 : entries := [ ([120], File (ex_st 1 1 33188 1) [49]) ].
+Definition ex_mode2 : entries := [ ([120], File (ex_st 1 1 (33188 + 4294967296) 1) [49]) ].
+
+(* a, b, c  then  a, c, d (b deleted, d created; a and c untouched) *)
+Definition ex_abc : entries :=
+  [ ([97], File (ex_st 1 21 33188 1) [65]); ([98], File (ex_st 2 22 33188 1) [66]); ([99], File (ex_st 3 23 33188 1) [67]) ].
+Definition ex_acd : entries :=
+  [ ([97], File (ex_st 1 21 33188 1) [65]); ([99], File (ex_st 3 23 33188 1) [67]); ([100], File (ex_st 4 24 33188 1) [68]) ].
+Definition ex_cache_abc : option (list N) := snd (hash_cached H_toy IGNORE_DIRS None ex_abc).
+Definition names_in_file (f : option (list N)) : list (list N) :=
+  match f with Some b => map r_name (file_records b) | None => [] end.
+(* the records of a cache file are strictly sorted by name *)
+Definition file_sorted (f : option (list N)) : Prop := StronglySorted bytes_lt (names_in_file f).
